@@ -18,7 +18,8 @@ package main
 //   found I W               managed addresses of W that have history on I's node chain
 //   export I W J            ExportWallet -> J               -> ok ex=.. in=..
 //   impks I J               ImportWallet(J)                 -> ok W | err-dup | err
-//   impmn I W HE HI         ImportWalletWithMnemonic(secret W, hints) -> same
+//   impmn I W HE HI [SP]    ImportWalletWithMnemonic(secret W, hints) -> same; SP = white-space variant of the
+//                           sentence (0 canonical, 1 double spaces, 2 tabs, 3 leading/trailing, 4 newline, 5 mixed)
 //   restart I               close + reopen the wallet database (fresh WalletManager)
 //   chpub I PASS            KeystoreManager.ChangePubPassphrase
 //   unlock I W | lock I     load the private account key (issue from private material) / ClearPrivKey
@@ -198,7 +199,7 @@ func (x *ksExec) afterImport(in *ksInst, id string, err error) string {
 	e := in.e
 	w, ok := x.idName[id]
 	if !ok {
-		return "ok ?" + id
+		return "ok ?" // a wallet id no secret of this history has produced before
 	}
 	e.wm.VerifDrainTasks()
 	for k := 0; k < 10000; k++ {
@@ -412,10 +413,30 @@ func (x *ksExec) Exec(a []string) string {
 			return ksErr(err)
 		}
 		return x.afterImport(in, ws.WalletID, nil)
-	case a[0] == "impmn" && len(a) == 5:
+	case a[0] == "impmn" && (len(a) == 5 || len(a) == 6):
 		s, ok := x.secrets[a[2]]
 		if !ok {
 			return "bad-op"
+		}
+		// the sentence as the user types it: same words, different white space
+		mn := s.mnemonic
+		if len(a) == 6 {
+			words := strings.Fields(mn)
+			switch a[5] {
+			case "0":
+			case "1":
+				mn = strings.Join(words, "  ")
+			case "2":
+				mn = strings.Join(words, "\t")
+			case "3":
+				mn = "  " + mn + " "
+			case "4":
+				mn = mn + "\n"
+			case "5":
+				mn = " " + strings.Join(words[:len(words)/2], " ") + " \t " + strings.Join(words[len(words)/2:], "  ") + "\n"
+			default:
+				return "bad-op"
+			}
 		}
 		he, err1 := strconv.ParseUint(a[3], 10, 32)
 		hi, err2 := strconv.ParseUint(a[4], 10, 32)
@@ -424,7 +445,7 @@ func (x *ksExec) Exec(a []string) string {
 		}
 		e.wm.VerifEnsureTaskChan()
 		ws, err := e.wm.ImportWalletWithMnemonic(&keystore.WalletParams{
-			Version: keystore.KeystoreVersionLatest, Mnemonic: s.mnemonic, PrivatePassphrase: []byte(privPass(a[2])),
+			Version: keystore.KeystoreVersionLatest, Mnemonic: mn, PrivatePassphrase: []byte(privPass(a[2])),
 			ExternalIndex: uint32(he), InternalIndex: uint32(hi), AddressGapLimit: e.cfg.Wallet.Settings.AddressGapLimit})
 		if err != nil {
 			return ksErr(err)
